@@ -284,6 +284,26 @@ def _run(ck, m):
     ck.ob('C20.d', short(ws[0].id) if ws else 'ws', 'one-dispatch-per-part', okw,
           'the WebSocket handler runs each part through the request entry exactly once' if okw else
           'WebSocket per-part closure: found %d' % len(ws), '')
+    # ... and the parts are consumed to the end: the closure is driven by an exhaustive consumer, no short-circuiting adaptor or
+    # consumer stands between the split and it (`.map(..).all(..)` stops at the first refused command, the rest of the frame is dropped)
+    if len(ws) == 1:
+        pid = ws[0].id.rsplit('::{closure', 1)[0]
+        pb = P.bodies.get(pid)
+        SHORT = ('all', 'any', 'find', 'find_map', 'position', 'rposition', 'try_for_each', 'try_fold', 'take_while', 'map_while', 'take',
+                 'nth', 'skip_while', 'step_by', 'skip', 'filter', 'scan')
+        FULL = ('for_each', 'collect', 'count', 'fold', 'last', 'sum', 'product', 'unzip', 'partition', 'reduce')
+        if pb is not None:
+            its = [(bi, callee_decl(t).split('::')[-1]) for bi, t in pb.calls() if callee_decl(t).startswith(('std::iter::Iterator::', 'std::iter::DoubleEndedIterator::'))]
+            short_ = [(n_, pb.loc(bi)) for bi, n_ in its if n_ in SHORT]
+            full_ = [n_ for bi, n_ in its if n_ in FULL]
+            loops_ = [1 for h2, body2 in natural_loops(pb) if any(callee(pb.term(x)) == ws[0].id or callee_decl(pb.term(x)).endswith('FnMut::call_mut') for x in body2 if pb.term(x)['k'] == 'call')]
+            oke = not short_ and (bool(full_) or bool(loops_))
+            ck.ob('C20.d', short(pb.id), 'every-part-consumed', oke,
+                  'the parts of a frame are driven to the end by %s' % (full_ or 'a loop') if oke else
+                  'the per-part closure is driven through %s: the iteration stops early (at the first refused command, for `map(..).all(..)`), '
+                  'the remaining commands of the frame are silently not executed' % (short_ or 'no exhaustive consumer'), '%s:%s' % (pb.file, pb.line))
+        else:
+            ck.undecided('C20.d', 'ws', 'every-part-consumed', 'parent of the per-part closure not found')
 
 
 
